@@ -40,7 +40,8 @@ PROPS = {
     "C28": dict(engine="e1", level="exploration", rule="e5-crash"),
     "C10": dict(engine="e1", level="exploration", rule="e1-net"),
     "C23": dict(engine="e1", level="exploration", rule="e1-net"),
-    "C22": dict(engine="e1", level="exploration", rule="e1-frame"),
+    "C22": dict(engine="e1", level="exploration", rule="e1-frame",
+                second=dict(engine="e2", rule="e2-frame", external=True, replay_attempts=10, share=0.4)),
     "C24": dict(engine="e1", level="exploration", rule="e1-book"),
     "C25": dict(engine="e1", level="exploration", rule="e1-gate"),
     "C26": dict(engine="e6", level="exploration", rule="e6-pex"),
@@ -104,6 +105,15 @@ RULES = {
                "a documented error of that call, calls started after Shutdown returned get the pool-closed error, Shutdown and Run return, the five registries are empty, every "
                "connection given to the pool is closed, no pool goroutine is left, connect/disconnect callbacks pair up, peers only ever receive well-formed frames, per-connection "
                "delivery order; distinct = distinct sequence of (yield label, harness/pool) decisions; non-trivial = at least 2 successful calls and one established connection",
+    "e2-frame": "one run = one real gnet.ConnectionPool with its real goroutines (accept loop, strand, handleConnection with readLoop, the 32-slot receive queue, the receive loop, "
+                "sendLoop) on simulated connections under the race detector and the tape-driven yield scheduler: 1-2 well-behaved peers each stream 2-8 bursts of 1-8 messages (padding "
+                "0-1200 bytes whose content is a function of sender and sequence number) written as byte strings cut at tape-chosen offsets (a few random cuts, many small pieces, one "
+                "cut inside the last frame), optionally followed by one malformed frame (unknown id, length below the minimum, length above the maximum incl. values within 4 of 2^32, "
+                "undecodable body, trailing bytes, half a frame then EOF, a message the handler refuses) and one more well-formed message; the message handler is scheduled like every "
+                "other goroutine, so decoded messages queue up behind it while later reads arrive; nobody disconnects or shuts down before everything sent was delivered or the "
+                "connection is gone; checked: the delivered sequence is exactly the sent one with intact content, nothing is delivered after the malformed frame, a malformed frame "
+                "disconnects with the matching reason, a well-formed stream is never disconnected (except by the documented receive-queue overflow), no race report, no panic; "
+                "non-trivial = at least 3 messages delivered and one cut",
     "e1-net": "one run = a network of 2-3 real nodes (publisher + followers; real visor, bolt, daemon handlers and gnet pool, stepped through hooks H4/H5) on simulated "
               "links; 20-90 events: clients hand transactions (incl. fat ones and a packer that fills the pool to the block size limit) to any node, the publisher's block "
               "timer, request/announce/refresh timers, clock advance, and delivery of one in-flight frame with faults (drop, duplicate, chunked, and for C10 third-party "
@@ -312,6 +322,13 @@ def main():
         budget = float(os.environ.get("VERIF_BUDGET_S", "0") or 0) or (spec.get("quick_s", 60) if tier == "quick" else spec.get("thorough_s", 1500))
 
     t_start = time.time()
+    if a.replay:
+        try:
+            engine = json.load(open(a.replay)).get("engine", engine)
+        except (OSError, ValueError):
+            die("cannot read replay file " + a.replay)
+        if engine not in ENGINES:
+            engine = spec["engine"]
     binary, build_s = build(engine, repo)
     scratch = scratch_root()
     try:
@@ -319,7 +336,20 @@ def main():
             sys.exit(do_replay(binary, prop, a.replay, scratch))
         if a.determinism:
             sys.exit(do_determinism(binary, prop, tier, seed, a.determinism, scratch))
-        code = explore(binary, prop, tier, seed, budget, a.workers, a.max_runs, scratch, spec, engine, build_s, t_start)
+        second = spec.get("second")
+        if second:
+            # the property is decided by two engines in turn; the budget is split
+            b2 = budget * second.get("share", 0.4)
+            code, ev = explore(binary, prop, tier, seed, budget - b2, a.workers, a.max_runs, scratch, spec, engine, build_s, t_start)
+            t2 = time.time()
+            binary2, build2_s = build(second["engine"], repo)
+            spec2 = dict(spec, **second)
+            code2, ev2 = explore(binary2, prop, tier, seed, b2, a.workers, a.max_runs, scratch, spec2, second["engine"], build2_s, t2)
+            code = max(code, code2)
+            ev = merge_evidence(ev, ev2, engine, second["engine"])
+        else:
+            code, ev = explore(binary, prop, tier, seed, budget, a.workers, a.max_runs, scratch, spec, engine, build_s, t_start)
+        write_evidence(prop, ev)
     finally:
         shutil.rmtree(scratch, ignore_errors=True)
     sys.exit(code)
@@ -460,8 +490,8 @@ def explore(binary, prop, tier, seed, budget, workers, max_runs, scratch, spec, 
     for i, f in enumerate(new_violations):
         v = f["violation"]
         attempts = spec.get("replay_attempts", 1)
-        if external:
-            # minimise in fresh processes (a failed run of this engine cannot be repeated inside one process)
+        if external and i < 2:
+            # minimise in fresh processes (only the first two distinct violations: each costs up to a minute) (a failed run of this engine cannot be repeated inside one process)
             m = shrink_external(binary, prop, tier, f, scratch, "shrink%d" % i, 60 if tier == "quick" else 600)
             if m is not None:
                 f = dict(f, tape=m["tape"], minimised=True, shrink_runs=m.get("shrink_runs", 0), orig_tape_len=f.get("orig_tape_len", len(f["tape"])))
@@ -517,13 +547,47 @@ def explore(binary, prop, tier, seed, budget, workers, max_runs, scratch, spec, 
                      "seeded search samples histories; a clean batch is evidence, not proof",
                      "go1.26.8 testing/synctest fake clock is faithful to time semantics"],
     )
+    print("%s %s: %d runs (%d distinct, %d non-trivial), %d steps, %.0f simulated s, %d undecided, %d known finding(s), %d violation(s), %.1f s wall"
+          % (prop, tier, runs, len(fps), len(nts), steps, sim_ns / 1e9, undecided, len(known_hits), len(new_violations), wall))
+    return code, evidence
+
+
+def write_evidence(prop, evidence):
     os.makedirs(os.path.join(VERIF, "evidence"), exist_ok=True)
     tmp = os.path.join(VERIF, "evidence", prop + ".json.tmp")
     json.dump(evidence, open(tmp, "w"), indent=1)
     os.replace(tmp, os.path.join(VERIF, "evidence", prop + ".json"))
-    print("%s %s: %d runs (%d distinct, %d non-trivial), %d steps, %.0f simulated s, %d undecided, %d known finding(s), %d violation(s), %.1f s wall"
-          % (prop, tier, runs, len(fps), len(nts), steps, sim_ns / 1e9, undecided, len(known_hits), len(new_violations), wall))
-    return code
+
+
+def merge_evidence(a, b, tag_a, tag_b):
+    """Evidence of a property decided by two engines in turn: counts add up, texts are kept side by side."""
+    ca, cb = a["coverage"], b["coverage"]
+    out = dict(a)
+    out["wall_s"] = round(a["wall_s"] + b["wall_s"], 2)
+    out["violations"] = a["violations"] + b["violations"]
+    cov = dict(ca)
+    for k in ("evaluations", "distinct_nontrivial", "simulation_runs", "distinct_fingerprints", "distinct_abstract_states", "steps", "undecided"):
+        cov[k] = ca[k] + cb[k]
+    cov["simulated_seconds"] = round(ca["simulated_seconds"] + cb["simulated_seconds"], 1)
+    cov["explore_wall_s"] = round(ca["explore_wall_s"] + cb["explore_wall_s"], 2)
+    cov["build_s"] = round(ca["build_s"] + cb["build_s"], 2)
+    cov["runs_per_hour"] = int(cov["simulation_runs"] / cov["explore_wall_s"] * 3600) if cov["explore_wall_s"] > 0 else 0
+    cov["rule"] = "[%s] %s  [%s] %s" % (tag_a, ca["rule"], tag_b, cb["rule"])
+    cov["samples"] = (ca["samples"] + cb["samples"])[:6]
+    for k in ("fault_counts", "probe_counts", "outcome_counts"):
+        m = {}
+        for tag, src in ((tag_a, ca[k]), (tag_b, cb[k])):
+            for kk, v in src.items():
+                m["%s:%s" % (tag, kk)] = v
+        cov[k] = m
+    cov["known_findings_hit"] = ca["known_findings_hit"] + cb["known_findings_hit"]
+    cov["replay_files"] = ca["replay_files"] + cb["replay_files"]
+    cov["real_components"] = ["[%s] %s" % (tag_a, x) for x in ca["real_components"]] + ["[%s] %s" % (tag_b, x) for x in cb["real_components"]]
+    cov["stubbed_components"] = ["[%s] %s" % (tag_a, x) for x in ca["stubbed_components"]] + ["[%s] %s" % (tag_b, x) for x in cb["stubbed_components"]]
+    cov["notes"] = ca["notes"] + cb["notes"]
+    cov["phases"] = [dict(engine=tag_a, runs=ca["simulation_runs"], wall_s=ca["explore_wall_s"]), dict(engine=tag_b, runs=cb["simulation_runs"], wall_s=cb["explore_wall_s"])]
+    out["coverage"] = cov
+    return out
 
 
 if __name__ == "__main__":
